@@ -60,12 +60,18 @@ class C20(F.Spec):
         n = 300 if tier == "quick" else 4000
         for i in range(n):
             yield self.gen(rng, i)
-        if tier == "thorough":
-            base = reply(b"supla.org")
+        # systematic family: every truncation point of valid replies, with and without a consistent
+        # length prefix (cheap, so it is part of the quick tier too)
+        for nm, kw in ((b"supla.org", {}), (b"a.bc", {"ans_name": qname(b"a.bc")}), (b"supla.org", {"cname_first": True})):
+            base = reply(nm, b"\x5d\xb8\xd8\xee", **kw)
             for cut in range(len(base) + 1):
-                yield F.Case("trunc%d" % cut, ["resolve supla.org", "connected 0", "reply " + (base[:cut].hex() or "-"),
-                                               "fire timeout", "disc"] + ["fire retry", "fire timeout"] * 6,
-                             {"tags": ["kind:trunc"], "names": [9]})
+                for fix in (True, False):
+                    p = base[:cut]
+                    if fix and cut >= 2:
+                        p = struct.pack(">H", cut - 2) + p[2:]
+                    yield F.Case("trunc-%s-%d-%d" % (nm.decode(), cut, fix),
+                                 ["resolve " + nm.decode(), "connected 0", "reply " + (p.hex() or "-"), "disc"] +
+                                 ["fire retry", "fire timeout"] * 6, {"tags": ["kind:trunc"], "names": [len(nm)]})
 
     def mk_reply(self, rng, name):
         k = rng.choice(["good", "good", "cname", "uncompressed", "rcode", "an0", "type", "class", "rdlen", "lenprefix",
